@@ -4,6 +4,7 @@ package main
 
 import (
 	"context"
+	"crypto/x509"
 	"crypto/x509/pkix"
 	"encoding/asn1"
 	"errors"
@@ -102,6 +103,7 @@ func genSubject(rng *Rng, kind string) [][]attr {
 type apiChain struct {
 	env      []byte
 	penv     []byte            // the same signed content with the critical attribute naming verification plugin "p"
+	root     *x509.Certificate
 	intended map[string]string // the attributes the leaf subject was generated from (last one wins), nil if none
 	format   string
 	subjects []string          // Subject.String() as reported for the envelope's chain, leaf first
@@ -113,7 +115,10 @@ type apiChain struct {
 var apiDesc = ocispec.Descriptor{MediaType: "application/vnd.oci.image.manifest.v1+json", Digest: digest.Digest(strings.TrimPrefix(TestRef, TestScope+"@")), Size: 528}
 
 func newAPIChain(rng *Rng, k int) (*apiChain, error) {
-	kind := Pick(rng, leafKinds)
+	return newAPIChainKind(rng, k, Pick(rng, leafKinds))
+}
+
+func newAPIChainKind(rng *Rng, k int, kind string) (*apiChain, error) {
 	n := 1 + rng.Intn(3)
 	now := time.Now()
 	nb, na := now.Add(-48*time.Hour), now.Add(48*time.Hour)
@@ -176,6 +181,7 @@ func newAPIChain(rng *Rng, k int) (*apiChain, error) {
 	}
 	c.store = NewMockStore()
 	c.store.Put(truststore.TypeCA, "s", chain[n-1].C)
+	c.root = chain[n-1].C
 	return c, nil
 }
 
@@ -603,7 +609,7 @@ func runAPI(a *Args, w *CaseWriter, rng *Rng, nAPI int, next func() (int64, bool
 			w.Count("verify_late", fmt.Sprint(late))
 		}
 	}
-	return nil
+	return runHistories(a, w, rng, next)
 }
 
 func contains(xs []string, s string) bool {
